@@ -13,6 +13,7 @@ CONSTANTS
   Sizes = {1}
   IgnoreOpts = {FALSE, TRUE}
   MaxApp = 6
+  MaxRefused = 1
   MaxFlight = 2
   Senders = {"I"}
   MaxFaults = 2
